@@ -2047,10 +2047,10 @@ class HDKey(Key):
             typebyte = b''
             if not is_private:
                 rkey = self.public_compressed_byte
-        if child_index:
-            self.child_index = child_index
+        if child_index is None:
+            child_index = self.child_index
         raw = prefix + self.depth.to_bytes(1, 'big') + self.parent_fingerprint + \
-              self.child_index.to_bytes(4, 'big') + self.chain + typebyte + rkey
+              child_index.to_bytes(4, 'big') + self.chain + typebyte + rkey
         chk = double_sha256(raw)[:4]
         ret = raw + chk
         return change_base(ret, 256, 58, 111)
